@@ -7,9 +7,16 @@ from manifest_meta import NOT_APPLICABLE, HOOK_COMMITS
 
 BASELINE = "cd /repo && cargo nextest run --workspace --no-fail-fast --tool-config-file pb:/w/lib/nextest.toml --profile pb --test-threads 8 --offline  (fallback: cargo test --workspace --no-fail-fast --offline)"
 
+def claimed():
+    """Only properties listed in lib/claimed.txt are claimed (others may be under construction)."""
+    p = os.path.join(os.path.dirname(os.path.abspath(__file__)), 'claimed.txt')
+    ids = [l.strip() for l in open(p) if l.strip() and not l.startswith('#')]
+    return [i for i in ids if i in PROPS]
+
 def main():
     checks = []
-    for pid in sorted(PROPS):
+    CL = claimed()
+    for pid in sorted(CL):
         m = META[pid]
         checks.append({
             'property_id': pid,
@@ -23,7 +30,7 @@ def main():
             'technique': m['technique'],
         })
     all_ids = ['C%02d' % i for i in range(1, 21)]
-    na = [{'property_id': p, 'reason': NOT_APPLICABLE.get(p, 'check not built yet (see DESIGN.md section 9 for status); no claim is made')} for p in all_ids if p not in PROPS]
+    na = [{'property_id': p, 'reason': NOT_APPLICABLE.get(p, 'check under construction in this round (not yet passing end to end); no claim is made')} for p in all_ids if p not in CL]
     man = {
         'version': 1,
         'setup_cmd': './kv setup',
@@ -35,9 +42,9 @@ def main():
             'add_only': True,
         },
         'engines': [
-            {'name': 'coq', 'path': 'coq/', 'serves_properties': sorted(PROPS), 'kind_free_text': 'Coq 8.16.1 development: models, proofs, property theorems (props/), correspondence checkers evaluated with vm_compute'},
-            {'name': 'harness', 'path': 'harness/', 'serves_properties': sorted(PROPS), 'kind_free_text': 'Rust crate linked against /repo (feature verif-hooks): runs the real code on generated operation sequences and writes the observed cases as Coq terms'},
-            {'name': 'translate', 'path': 'translate/', 'serves_properties': [p for p in sorted(PROPS) if PROPS[p].get('translators')], 'kind_free_text': 'Python pattern extractors regenerating coq/gen/*.v from /repo on every run'},
+            {'name': 'coq', 'path': 'coq/', 'serves_properties': sorted(CL), 'kind_free_text': 'Coq 8.16.1 development: models, proofs, property theorems (props/), correspondence checkers evaluated with vm_compute'},
+            {'name': 'harness', 'path': 'harness/', 'serves_properties': sorted(CL), 'kind_free_text': 'Rust crate linked against /repo (feature verif-hooks): runs the real code on generated operation sequences and writes the observed cases as Coq terms'},
+            {'name': 'translate', 'path': 'translate/', 'serves_properties': [p for p in sorted(CL) if PROPS[p].get('translators')], 'kind_free_text': 'Python pattern extractors regenerating coq/gen/*.v from /repo on every run'},
         ],
         'checks': checks,
         'not_applicable': na,
